@@ -481,7 +481,7 @@ impl Space for Configs {
 
 pub fn spaces(tier: Tier, _seed: u64) -> Vec<Box<dyn Space>> {
     match tier {
-        Tier::Quick => vec![Box::new(Configs { ndirs: 2, nfiles: 2 })],
+        Tier::Quick => vec![Box::new(Configs { ndirs: 2, nfiles: 2 }), Box::new(Configs { ndirs: 2, nfiles: 3 })],
         Tier::Thorough => vec![Box::new(Configs { ndirs: 2, nfiles: 2 }), Box::new(Configs { ndirs: 3, nfiles: 3 })],
     }
 }
